@@ -2,8 +2,11 @@
 // sockets). Lines:
 //
 //	keyeq <rA> <lkindA> <lipA> <rB> <lkindB> <lipB>   -> 1|0   (do two (remote, local) pairs share a peer-table key?)
-//	serve <udp|tcp> <seed> <good> <bad> <msgs>        -> per good client what it received + server liveness
-//	discover <responders>                             -> discovery routing on a real datagram server
+//	serve <udp|tcp|dtls> <seed> <good> <bad> <msgs>   -> per good client what it received + server liveness
+//	                                                     (dtls: the adversaries send a ClientHello and stall, plus garbage records)
+//	discover <responders> [dup]                       -> discovery routing on a real datagram server; with `dup` a second
+//	                                                     discovery re-using each running discovery's token is issued (and must be
+//	                                                     refused) before the responders answer
 //
 // A rig problem (cannot listen, cannot connect) is reported as `rig-error …`, never as a violation.
 package c10
@@ -12,6 +15,7 @@ import (
 	"bufio"
 	"bytes"
 	"context"
+	"errors"
 	"fmt"
 	"math/rand"
 	"net"
@@ -22,6 +26,9 @@ import (
 	"testing"
 	"time"
 
+	piondtls "github.com/pion/dtls/v3"
+	dtlsnet "github.com/pion/dtls/v3/pkg/net"
+	coapdtls "github.com/plgd-dev/go-coap/v3/dtls"
 	"github.com/plgd-dev/go-coap/v3/message"
 	"github.com/plgd-dev/go-coap/v3/message/codes"
 	"github.com/plgd-dev/go-coap/v3/message/pool"
@@ -29,6 +36,7 @@ import (
 	coapNet "github.com/plgd-dev/go-coap/v3/net"
 	"github.com/plgd-dev/go-coap/v3/net/responsewriter"
 	"github.com/plgd-dev/go-coap/v3/options"
+	pkgErrors "github.com/plgd-dev/go-coap/v3/pkg/errors"
 	"github.com/plgd-dev/go-coap/v3/tcp"
 	tcpcoder "github.com/plgd-dev/go-coap/v3/tcp/coder"
 	"github.com/plgd-dev/go-coap/v3/udp"
@@ -439,9 +447,183 @@ func serveTCP(seed int64, good, bad, msgs int) string {
 	return b.String()
 }
 
+// ---------------------------------------------------------------- DTLS
+
+// firstWriteOnly lets the first datagram (the ClientHello) through and loses everything written afterwards: the
+// server-side handshake with this peer never completes.
+type firstWriteOnly struct {
+	net.Conn
+	writes atomic.Int32
+}
+
+func (c *firstWriteOnly) Write(b []byte) (int, error) {
+	if c.writes.Add(1) == 1 {
+		return c.Conn.Write(b)
+	}
+	return len(b), nil
+}
+
+func pskConfig() *piondtls.Config {
+	return &piondtls.Config{
+		PSK:             func([]byte) ([]byte, error) { return []byte{0xC1, 0x0A, 0x23}, nil },
+		PSKIdentityHint: []byte("c10"),
+		CipherSuites:    []piondtls.CipherSuiteID{piondtls.TLS_PSK_WITH_AES_128_CCM_8},
+	}
+}
+
+func serveDTLS(seed int64, good, bad, msgs int) string {
+	rng := rand.New(rand.NewSource(seed))
+	l, err := coapNet.NewDTLSListener("udp4", "127.0.0.1:0", pskConfig())
+	if err != nil {
+		return "rig-error listen"
+	}
+	defer l.Close()
+	var panics atomic.Int64
+	r := mux.NewRouter()
+	_ = r.Handle("/echo", mux.HandlerFunc(func(w mux.ResponseWriter, req *mux.Message) {
+		body, _ := req.ReadBody()
+		_ = w.SetResponse(codes.Content, message.TextPlain, bytes.NewReader(body))
+	}))
+	s := coapdtls.NewServer(options.WithMux(r), options.WithErrors(func(error) {}))
+	served := make(chan error, 1)
+	go func() {
+		defer func() {
+			if rec := recover(); rec != nil {
+				panics.Add(1)
+				served <- fmt.Errorf("panic %v", rec)
+			}
+		}()
+		served <- s.Serve(l)
+	}()
+	addr := l.Addr().String()
+	// adversaries: ClientHello then silence (the handshake stalls), and raw sockets sending garbage records
+	stallCtx, stallCancel := context.WithCancel(context.Background())
+	var bwg sync.WaitGroup
+	stopBad := make(chan struct{})
+	for b := 0; b < bad; b++ {
+		raw, err := net.Dial("udp4", addr)
+		if err != nil {
+			continue
+		}
+		st := &firstWriteOnly{Conn: raw}
+		xc, err := piondtls.Client(dtlsnet.PacketConnFromConn(st), raw.RemoteAddr(), pskConfig())
+		if err != nil {
+			raw.Close()
+			continue
+		}
+		bwg.Add(1)
+		go func() {
+			defer bwg.Done()
+			_ = xc.HandshakeContext(stallCtx) // never completes
+			_ = xc.Close()
+			raw.Close()
+		}()
+		deadline := time.Now().Add(2 * time.Second)
+		for st.writes.Load() == 0 && time.Now().Before(deadline) {
+			time.Sleep(5 * time.Millisecond)
+		}
+		g, err := net.Dial("udp4", addr)
+		if err != nil {
+			continue
+		}
+		bseed := rng.Int63()
+		bwg.Add(1)
+		go func() {
+			defer bwg.Done()
+			defer g.Close()
+			brng := rand.New(rand.NewSource(bseed))
+			for {
+				select {
+				case <-stopBad:
+					return
+				default:
+				}
+				n := 1 + brng.Intn(80)
+				buf := make([]byte, n)
+				brng.Read(buf)
+				if brng.Intn(2) == 0 && n > 13 { // looks like a DTLS 1.2 handshake record with a wrong body
+					buf[0], buf[1], buf[2] = 22, 0xfe, 0xfd
+				}
+				_, _ = g.Write(buf)
+				time.Sleep(time.Duration(500+brng.Intn(1500)) * time.Microsecond)
+			}
+		}()
+	}
+	time.Sleep(250 * time.Millisecond) // the stalled ClientHellos have reached the server's accept loop
+	results := make([]goodResult, good)
+	var gwg sync.WaitGroup
+	for g := 0; g < good; g++ {
+		gwg.Add(1)
+		go func(g int) {
+			defer gwg.Done()
+			res := goodResult{order: true}
+			defer func() { results[g] = res }()
+			dctx, dcancel := context.WithTimeout(context.Background(), 5*time.Second)
+			defer dcancel()
+			cc, err := coapdtls.Dial(addr, pskConfig(), options.WithContext(dctx))
+			if err != nil {
+				return
+			}
+			defer func() {
+				_ = cc.Close()
+				<-cc.Done()
+			}()
+			for i := 0; i < msgs; i++ {
+				ctx, cancel := context.WithTimeout(context.Background(), 4*time.Second)
+				want := fmt.Sprintf("c%d-%d", g, i)
+				resp, err := cc.Post(ctx, "/echo", message.TextPlain, strings.NewReader(want))
+				cancel()
+				if err != nil {
+					return
+				}
+				body, _ := resp.ReadBody()
+				if resp.Code() != codes.Content || string(body) != want {
+					res.wrong++
+				}
+				res.got++
+			}
+		}(g)
+	}
+	gwg.Wait()
+	alive := 0
+	{
+		dctx, dcancel := context.WithTimeout(context.Background(), 5*time.Second)
+		if cc, err := coapdtls.Dial(addr, pskConfig(), options.WithContext(dctx)); err == nil {
+			ctx, cancel := context.WithTimeout(context.Background(), 3*time.Second)
+			if resp, err := cc.Post(ctx, "/echo", message.TextPlain, strings.NewReader("probe")); err == nil && resp.Code() == codes.Content {
+				alive = 1
+			}
+			cancel()
+			_ = cc.Close()
+			<-cc.Done()
+		}
+		dcancel()
+	}
+	stillServing := 1
+	select {
+	case <-served:
+		stillServing = 0
+	default:
+	}
+	close(stopBad)
+	stallCancel()
+	bwg.Wait()
+	s.Stop()
+	select {
+	case <-served:
+	case <-time.After(5 * time.Second):
+	}
+	var b strings.Builder
+	for g, r := range results {
+		fmt.Fprintf(&b, "g%d got %d/%d wrong %d ; ", g, r.got, msgs, r.wrong)
+	}
+	fmt.Fprintf(&b, "alive %d serving %d panics %d", alive, stillServing, panics.Load())
+	return b.String()
+}
+
 // ---------------------------------------------------------------- discovery
 
-func discover(responders int) string {
+func discover(responders int, dup bool) string {
 	l, err := coapNet.NewListenUDP("udp4", "127.0.0.1:0")
 	if err != nil {
 		return "rig-error listen"
@@ -486,6 +668,9 @@ func discover(responders int) string {
 			n, from, err := pc.ReadFromUDP(buf)
 			if err != nil {
 				return
+			}
+			if dup {
+				time.Sleep(250 * time.Millisecond) // answer only after the duplicate-token discovery was refused
 			}
 			req := pool.NewMessage(context.Background())
 			if _, err := req.UnmarshalWithDecoder(udpcoder.DefaultCoder, buf[:n]); err != nil {
@@ -532,6 +717,26 @@ func discover(responders int) string {
 			})
 		}()
 	}
+	refused, dupGot := 0, 0
+	if dup {
+		time.Sleep(80 * time.Millisecond) // the discoveries above are registered and waiting
+		for i, a := range addrs {
+			ctx, cancel := context.WithTimeout(context.Background(), 50*time.Millisecond)
+			req := pool.NewMessage(ctx)
+			_ = req.SetupGet("/oic/res", append(append(message.Token(nil), token...), byte(i)))
+			req.SetMessageID(int32(3500 + i))
+			req.SetType(message.NonConfirmable)
+			err := s.DiscoveryRequest(req, a, func(cc *udpclient.Conn, resp *pool.Message) {
+				mu.Lock()
+				dupGot++
+				mu.Unlock()
+			})
+			cancel()
+			if errors.Is(err, pkgErrors.ErrKeyAlreadyExists) {
+				refused++
+			}
+		}
+	}
 	dwg.Wait()
 	rwg.Wait()
 	mu.Lock()
@@ -549,6 +754,9 @@ func discover(responders int) string {
 		} else {
 			badc++
 		}
+	}
+	if dup {
+		return fmt.Sprintf("receiver ok %d/%d bad %d default %d refused %d/%d dupgot %d", okc, responders, badc, deflt.Load(), refused, responders, dupGot)
 	}
 	return fmt.Sprintf("receiver ok %d/%d bad %d default %d", okc, responders, badc, deflt.Load())
 }
@@ -576,12 +784,14 @@ func TestC10(t *testing.T) {
 			msgs, _ := strconv.Atoi(f[5])
 			if f[1] == "udp" {
 				fmt.Fprintln(w, serveUDP(seed, good, bad, msgs))
+			} else if f[1] == "dtls" {
+				fmt.Fprintln(w, serveDTLS(seed, good, bad, msgs))
 			} else {
 				fmt.Fprintln(w, serveTCP(seed, good, bad, msgs))
 			}
-		case len(f) == 2 && f[0] == "discover":
+		case (len(f) == 2 || len(f) == 3 && f[2] == "dup") && f[0] == "discover":
 			n, _ := strconv.Atoi(f[1])
-			fmt.Fprintln(w, discover(n))
+			fmt.Fprintln(w, discover(n, len(f) == 3))
 		default:
 			fmt.Fprintln(w, "bad-op")
 		}
